@@ -50,7 +50,14 @@ def give_past(rec, spy, seed, ctx=None, like=None):
                 q2['body'] = list(q2['body']) + [{'op': 'in', 'decl': d['name'], 'args': [{'lit': ('NEVER', k)}] * d['nparams'],
                                                   'kwargs': {'extra': {'lit': 'never-recorded'}}, 'var': 'zz'}]
             try:
-                rec.play(saves[0][2], playback_function_for(Built(q2, rec, World(1, poison=True), cls_name=qb.cls.__name__)))
+                pb = rec.play(saves[0][2], playback_function_for(Built(q2, rec, World(1, poison=True), cls_name=qb.cls.__name__)))
+                if rng.random() < 0.6:
+                    # the caller post-processes what the replay handed out IN PLACE (fills defaults, normalises values)
+                    from vlib.values import mutate_deep
+                    for o in list(pb.playback_outputs) + list(pb.recorded_outputs):
+                        mutate_deep(o.value, 'PAST')
+                    if ctx is not None:
+                        ctx.count('past_outputs_post_processed_in_place')
             except BaseException:  # noqa - the past is allowed to fail
                 pass
         if ctx is not None:
